@@ -65,7 +65,7 @@ impl Prop for C14 {
         (N_SPECIAL + 7) / 8 * 40 + if tier == Tier::Quick { 1600 } else { 30000 }
     }
     fn required_probes(&self, _tier: Tier) -> Vec<&'static str> {
-        vec!["hostile_script_pubkey", "hostile_script_sig", "hostile_witness_item", "hostile_len_ge_64k", "verify_on", "verbose_run", "segment_above_height_gated_rules", "bounded_address_space"]
+        vec!["hostile_script_pubkey", "hostile_script_sig", "hostile_witness_item", "hostile_len_ge_64k", "verify_on", "verbose_run", "segment_above_height_gated_rules", "bounded_address_space", "wide_tx_with_runs_of_equal_scripts"]
     }
     fn explore(&self, item: u64, rng: &mut Rng, _tier: Tier, h: &mut Harness) -> Result<(), String> {
         let coin = COINS[(item % 8) as usize];
@@ -144,6 +144,29 @@ impl Prop for C14 {
                     tx.inputs[ii].witness.push(Bytes(bytes));
                 }
             }
+        }
+        // a transaction with a thousand and more outputs in which neighbouring outputs carry byte-identical
+        // scripts (hostile and ordinary ones) but different values: each row keeps its own value
+        if !is_special && rng.chance(1, 12) {
+            let bi = rng.usize(0, nb - 1);
+            let ti = rng.usize(0, scn.chain[bi].txs.len() - 1);
+            let mut h1 = hostile(rng);
+            h1.truncate(40);
+            let palette: Vec<Vec<u8>> = vec![h1, crate::ser::p2pkh(&rng.bytes(20)), crate::ser::p2sh(&rng.bytes(20))];
+            let n = *rng.pick(&[1024usize, 1025, 1100, 2048]);
+            let tx = &mut scn.chain[bi].txs[ti];
+            let first = tx.outputs.len();
+            let mut cur = 0usize;
+            for k in 0..n {
+                if rng.chance(1, 3) {
+                    cur = rng.usize(0, 2);
+                }
+                tx.outputs.push(OutDesc { value: 1_000 + k as u64, script: Bytes(palette[cur].clone()) });
+                if cur == 0 {
+                    hostile_outputs.push(json!([bi, ti, first + k]));
+                }
+            }
+            h.stats.probe("wide_tx_with_runs_of_equal_scripts");
         }
         scn.params = json!({ "hostile_outputs": hostile_outputs });
         scn.layouts = vec![random_layout(nb, 2, false, rng)];
